@@ -187,6 +187,10 @@ def check(ctx):
                           {'first_channel_weights_': T.pretty(got)[:300]})
     ctx.guard('R5.default', fsite(ch), r5b)
     _shared(ctx)
+    # the refinement must be fed the weights and the data of the result in their own slots, also in
+    # the MPI driver (shared with C19)
+    share(ctx, 'C19', 'R8/C19.', ['R4.mpi_result', 'R4.mpi_refinement'])
+
 
 
 def _shared(ctx):
